@@ -4,7 +4,7 @@
 From Coq Require Import List Arith NArith ZArith Bool String.
 From Coq.Strings Require Import Byte.
 From Peppi Require Import Base.Bytes Base.Outcome Base.Stream Gen.Funs Model.Ubjson Model.Start Model.Parse Model.Reader
-  Proofs.UbjsonProof Proofs.Totality.
+  Model.Frag Proofs.UbjsonProof Proofs.Totality Proofs.FragProof.
 Import ListNotations.
 
 (* the one-shot reader: ALL byte strings, ALL option combinations *)
@@ -40,7 +40,21 @@ Proof. exact event_loop_safe. Qed.
 Theorem C06_read_map_total : forall bs, match read_map bs with Fuel => False | Panic _ => False | _ => True end.
 Proof. exact read_map_total. Qed.
 
+(* read errors injected by the underlying stream at ANY read call (and any fragmentation): a program of exact reads
+   returns the flat answer or an I/O error -- never a value built from partial data, never a panic *)
+Theorem C06_stream_faults_surface : forall (A : Type) (p : prog A) data sched hashed0,
+  let h := mk_hreader data sched hashed0 in
+  let '(res, h') := run_frag p h in
+  (exists used, data = used ++ fs_data (hr_inner h') /\ hr_hashed h' = option_map (fun l => l ++ used) hashed0) /\
+  (res = Err EIo \/
+   match run_flat p data with
+   | Ok (a, rest) => res = Ok a /\ fs_data (hr_inner h') = rest
+   | Err e => res = Err e | Panic x => res = Panic x | Fuel => res = Fuel
+   end).
+Proof. exact @run_frag_faulty. Qed.
+
 Print Assumptions C06_read_total.
+Print Assumptions C06_stream_faults_surface.
 Print Assumptions C06_read_consumes.
 Print Assumptions C06_parse_header_total.
 Print Assumptions C06_parse_start_total.
